@@ -163,6 +163,10 @@ def ob_do_handle(report, prop):
                                     'for such requests an abandoned RPC is not cancelled (or its response is never awaited)', 'handle-race-guarded', path_summary(r), len(res))
             # cancelled branch: Out::_1 => Err, nothing written
             pcs = ' '.join(str(z3.simplify(c)) for c in r.pc)
+            if re.search(r'(?<!Not\()poll\(select_future\)#1\.discr == 0', pcs.replace('0 == poll(select_future)#1.discr', 'poll(select_future)#1.discr == 0')) and not wr:
+                # the service won the race: whatever it produced (a RequestTimeout status included) is the caller's response
+                return viol(prop, ob, [ex], 'the service produced a response but the handler ends without writing it: the caller sees a reset stream instead of the response '
+                            '(status, headers, body) the service returned', 'handle-response-dropped', path_summary(r), len(res))
             if 'poll(select_future)#1.discr == 1' in pcs:
                 seen.add('cancelled')
                 if wr or not (isinstance(r.ret, Agg) and r.ret.variant == 'Ready' and isinstance(r.ret.fields[0], Agg) and r.ret.fields[0].variant == 'Err'):
